@@ -925,6 +925,19 @@ func main() {
 			}
 			return false
 		}
+		// a parameter of an unexported function is as fresh as what every call site in the package passes for it
+		type pending struct {
+			line int
+			fn   string
+			idx  int
+		}
+		var pend []pending
+		ctxFresh := map[string]func(ast.Expr) bool{}
+		type fnDecl struct {
+			name string
+			decl *ast.FuncDecl
+		}
+		var allFuncs []fnDecl
 		for _, fn := range []string{"bexpr.go", "evaluate.go", "filter.go", "options.go", "coerce.go"} {
 			f := parse(filepath.Join(root, fn))
 			for _, d := range f.Decls {
@@ -933,6 +946,17 @@ func main() {
 					continue
 				}
 				name := fdecl.Name.Name
+				allFuncs = append(allFuncs, fnDecl{name, fdecl})
+				paramIdx := map[string]int{}
+				if !ast.IsExported(name) && fdecl.Type.Params != nil {
+					k := 0
+					for _, p := range fdecl.Type.Params.List {
+						for _, n := range p.Names {
+							paramIdx[n.Name] = k
+							k++
+						}
+					}
+				}
 				fresh := map[string]bool{}
 				spoiled := map[string]bool{}
 				var freshExpr func(e ast.Expr) bool
@@ -1059,10 +1083,46 @@ func main() {
 						}
 					}
 					if target != nil {
-						lines = append(lines, fmt.Sprintf("  (%s, %s, %s, %s, %s)", cs(fn), cs(name), cs(ft), cs(anyExprText(target)), cs(class(target))))
+						cl := class(target)
+						if id, isId := target.(*ast.Ident); isId && cl == "shared" {
+							if k, isParam := paramIdx[id.Name]; isParam {
+								pend = append(pend, pending{len(lines), name, k})
+							}
+						}
+						lines = append(lines, fmt.Sprintf("  (%s, %s, %s, %s, %s)", cs(fn), cs(name), cs(ft), cs(anyExprText(target)), cs(cl)))
 					}
 					return true
 				})
+				ctxFresh[name] = freshExpr
+			}
+		}
+		for _, pd := range pend {
+			sites, allFresh := 0, true
+			for _, fd := range allFuncs {
+				fe := ctxFresh[fd.name]
+				ast.Inspect(fd.decl.Body, func(n ast.Node) bool {
+					c, ok := n.(*ast.CallExpr)
+					if !ok {
+						return true
+					}
+					callee := ""
+					switch x := c.Fun.(type) {
+					case *ast.Ident:
+						callee = x.Name
+					case *ast.SelectorExpr:
+						callee = x.Sel.Name
+					}
+					if callee == pd.fn && len(c.Args) > pd.idx {
+						sites++
+						if fe == nil || !fe(c.Args[pd.idx]) {
+							allFresh = false
+						}
+					}
+					return true
+				})
+			}
+			if sites > 0 && allFresh {
+				lines[pd.line] = strings.TrimSuffix(lines[pd.line], cs("shared")+")") + cs("fresh") + ")"
 			}
 		}
 		pln(strings.Join(lines, ";\n"))
